@@ -1717,11 +1717,13 @@ func (w *ResponseWriter) WriteMsg(res *dns.Msg) error {
 		}
 	}
 
+	var storedScope netip.Prefix
 	if w.clientScope.IsValid() {
 		if respScope, ok := ecs.ReadResponseScope(res); ok {
 			clamped := w.cache.ecsPolicy.ClampScope(respScope, w.clientScope)
 			scopedKey := CacheKey{Question: q, CD: res.CheckingDisabled, Scope: clamped}.Hash()
 			w.cache.store.SetFromResponseScoped(scopedKey, res, clamped, cutUntil, cutKey)
+			storedScope = clamped
 		} else {
 			// No SCOPE in response (or SCOPE=0): authority says
 			// "global"; cache shared so future non-ECS clients hit.
@@ -1738,7 +1740,7 @@ func (w *ResponseWriter) WriteMsg(res *dns.Msg) error {
 	// restart at the initial interval on a later failure.
 	w.cache.store.resetMatchingFailures(q, res.CheckingDisabled, w.clientScope)
 
-	return w.ResponseWriter.WriteMsg(w.boundTTLs(res, mt, cutUntil))
+	return w.ResponseWriter.WriteMsg(w.boundTTLs(res, mt, cutUntil, storedScope))
 }
 
 // boundTTLs lowers the TTLs of the reply that carries a freshly resolved
@@ -1750,7 +1752,11 @@ func (w *ResponseWriter) WriteMsg(res *dns.Msg) error {
 // behind this one) could hold a record past its signature's expiration or
 // past the point where this resolver itself would let go of it. TTLs are
 // only ever lowered, and the caller's message is left untouched.
-func (w *ResponseWriter) boundTTLs(res *dns.Msg, mt dnsutil.ResponseType, cutUntil time.Time) *dns.Msg {
+//
+// scope is the ECS scope the entry was stored under (zero for the shared
+// key): a scoped entry is also capped by the scoped TTL limit, and so is
+// the reply that fetched it.
+func (w *ResponseWriter) boundTTLs(res *dns.Msg, mt dnsutil.ResponseType, cutUntil time.Time, scope netip.Prefix) *dns.Msg {
 	switch mt {
 	case dnsutil.TypeSuccess, dnsutil.TypeReferral, dnsutil.TypeNXDomain, dnsutil.TypeNoRecords:
 	default:
@@ -1760,6 +1766,9 @@ func (w *ResponseWriter) boundTTLs(res *dns.Msg, mt dnsutil.ResponseType, cutUnt
 		return res
 	}
 	life := w.cache.store.positive.ttl.Calculate(dnsutil.CalculateCacheTTL(filterCacheableAnswer(res), mt))
+	if limit := w.cache.store.cfg.ECSMaxTTL; limit > 0 && life > limit && normalizeKeyScope(scope).IsValid() {
+		life = limit
+	}
 	if !cutUntil.IsZero() {
 		if left := time.Until(cutUntil); left < life {
 			life = left
